@@ -78,6 +78,11 @@ func genInter(t *rapid.T) InterCase {
 	for i := 0; i < n; i++ {
 		e := Event{Input: sim.GenCommand(t), DelayUS: int64(rapid.SampledFrom([]int{0, 0, 30, 700, 5000}).Draw(t, "delayUS"))}
 
+		// now and then the device takes seconds over an answer (the operation timeout is 75 s)
+		if c.ReadDelayNS == int64(250*time.Microsecond) && rapid.IntRange(0, 11).Draw(t, "longThink") == 0 {
+			e.DelayUS = 3_000_000
+		}
+
 		// an event without expected response waits for the prompt; at a non-final position only
 		// where the prompt is not (also) the completion pattern
 		promptIsCompletion := c.Complete && !c.CompleteLiteral
@@ -438,6 +443,12 @@ func genCmd(t *rapid.T) CmdCase {
 	for i := 0; i < rapid.IntRange(0, 3).Draw(t, "nOut"); i++ {
 		l, _ := sim.MakeSafe(sim.GenTextLine(t, 4), []*regexp.Regexp{promptRe})
 		c.Out = append(c.Out, l)
+	}
+
+	// a command of kilobytes (a long one-liner pasted into a shell): echoed like any other
+	if rapid.IntRange(0, 9).Draw(t, "longCmd") == 0 {
+		c.Cmd += " " + strings.Repeat("x", rapid.SampledFrom([]int{1000, 4090, 4096, 5000}).Draw(t, "cmdPad"))
+		c.ReadSize = 8192
 	}
 
 	return c
